@@ -10,6 +10,11 @@ def xsNs : String := "http://www.w3.org/2001/XMLSchema"
 
 def appOf (j : Json) : App :=
   { facts := SpyneModel.Generated.facts06,
+    leaf := F,
+    values := (getArr j "values").toList.map (fun e =>
+      match e with
+      | .arr #[p, .arr vs] => (primOf p, vs.toList.map valOf)
+      | _ => (.boolean, [])),
     iface := ifaceOf (getObj j "iface"),
     enumKeys := (getArr j "enums").toList.map (fun e =>
       match e with
@@ -100,12 +105,12 @@ def step (j : Json) : Json :=
       let soft := match decode F X softCfg A.iface t x with | .ok _ => "ok" | .fault => "fault" | .crash e => "crash:" ++ e
       Json.mkObj [("valid", Json.bool (S.valid x)), ("soft", Json.str soft),
                   ("common", Json.bool (commonForm F X A.tns A.tns t x)),
-                  ("denote", Json.bool (validS (denote A.facts A.tns A.tns t) false x))])).toArray)]
+                  ("denote", Json.bool (validS (denote (primFacetsA A) A.tns A.tns t) false x))])).toArray)]
   | "conformsX" =>
     -- the hypotheses of `emitted_valid` on a value
     let t := tyOf (getObj j "ty")
     let v := valOf (getObj j "val")
-    Json.mkObj [("conforms", Json.bool (conformsOne t v)), ("xsdRep", Json.bool (xsdRepresentable v))]
+    Json.mkObj [("conforms", Json.bool (conformsOne t v)), ("xsdRep", Json.bool (leavesOne (leafCond (appOf j)) t v))]
   | op => Json.mkObj [("driver_error", Json.str s!"unknown op {op}")]
 
 end C06
